@@ -311,3 +311,7 @@ pub mod test_utils;
 #[cfg(feature = "verif-hooks")]
 #[doc(hidden)]
 pub mod verif_remote;
+
+#[cfg(feature = "verif-hooks")]
+#[doc(hidden)]
+pub mod verif_netreport;
